@@ -520,10 +520,159 @@ theorem p_with_fitting_prints_the_code (flags : List Flag) (stdin : Bool) (prog 
     hcount, List.append_nil]
   exact chunk_dump_reads_back _ _
 
+/-! ### `-p FILE` without chunk fitting: what is printed is the code in the buffer -/
+
+/-- the three fields the layout theorem needs besides the offset: buffer contents, recorded length, ownership — no flag touches them -/
+def Shape (a b : Inst) : Prop := a.mem = b.mem ∧ a.bufLen = b.bufLen ∧ a.external = b.external
+
+theorem parseFlag_mem (st : Parsed) (f : Flag) : (parseFlag st f).a.mem = st.a.mem := by
+  cases f <;> simp only [parseFlag, applySetter] <;> (try rfl)
+  all_goals (split <;> (try rfl))
+  all_goals (unfold setChunkSize; split <;> rfl)
+
+theorem parseFlags_mem (fs : List Flag) (st : Parsed) : (parseFlags st fs).a.mem = st.a.mem := by
+  induction fs generalizing st with
+  | nil => rfl
+  | cons f fs ih =>
+    unfold parseFlags
+    split
+    · rfl
+    · rw [ih, parseFlag_mem]
+
+theorem applyLong_mem (st : Parsed) : (applyLong st).mem = st.a.mem := by
+  unfold applyLong applySetter
+  simp only
+  split <;> split <;> split <;> split <;> rfl
+
+theorem parseFlag_bufLen (st : Parsed) (f : Flag) : (parseFlag st f).a.bufLen = st.a.bufLen := by
+  cases f <;> simp only [parseFlag, applySetter] <;> (try rfl)
+  all_goals (split <;> (try rfl))
+  all_goals (unfold setChunkSize; split <;> rfl)
+
+theorem parseFlags_bufLen (fs : List Flag) (st : Parsed) : (parseFlags st fs).a.bufLen = st.a.bufLen := by
+  induction fs generalizing st with
+  | nil => rfl
+  | cons f fs ih =>
+    unfold parseFlags
+    split
+    · rfl
+    · rw [ih, parseFlag_bufLen]
+
+theorem applyLong_bufLen (st : Parsed) : (applyLong st).bufLen = st.a.bufLen := by
+  unfold applyLong applySetter
+  simp only
+  split <;> split <;> split <;> split <;> rfl
+
+theorem parseFlag_external (st : Parsed) (f : Flag) : (parseFlag st f).a.external = st.a.external := by
+  cases f <;> simp only [parseFlag, applySetter] <;> (try rfl)
+  all_goals (split <;> (try rfl))
+  all_goals (unfold setChunkSize; split <;> rfl)
+
+theorem parseFlags_external (fs : List Flag) (st : Parsed) : (parseFlags st fs).a.external = st.a.external := by
+  induction fs generalizing st with
+  | nil => rfl
+  | cons f fs ih =>
+    unfold parseFlags
+    split
+    · rfl
+    · rw [ih, parseFlag_external]
+
+theorem applyLong_external (st : Parsed) : (applyLong st).external = st.a.external := by
+  unfold applyLong applySetter
+  simp only
+  split <;> split <;> split <;> split <;> rfl
+
+open AL.Lemmas AL.Lemmas.DebugText in
+/-- **`-p FILE` prints the code the library produced** (no chunk fitting, no `-b`): for EVERY flag list and program text (below 170 000
+    characters: the int arithmetic of the C code), when the run succeeds, reading back the listing gives exactly the bytes `[0, offset)`
+    of the instance's buffer — the listing's codes are the codes of the layout theorem (`listingGo_codes`, `asm_layout`) -/
+theorem p_plain_file_prints_the_code (flags : List Flag) (text : Str)
+    (hu : (parseFlags { a := createInternal } flags).usage = false)
+    (hd : (parseFlags { a := createInternal } flags).debug = true)
+    (hb : (parseFlags { a := createInternal } flags).boundary ≤ 0)
+    (hm : (applyLong (parseFlags { a := createInternal } flags)).mode = .assemble)
+    (hlen : text.length < 170000)
+    (hok : (assemblePhase (parseFlags { a := createInternal } flags) false (some text)).2.1 = true) :
+    parseHexOut (cliStdout flags false (some text)) =
+      (((assemblePhase (parseFlags { a := createInternal } flags) false (some text)).1.mem.take
+        (assemblePhase (parseFlags { a := createInternal } flags) false (some text)).1.offset.toNat).map (· % 256)) := by
+  generalize hst : parseFlags { a := createInternal } flags = st at *
+  have hnb : ¬ st.boundary > 0 := by simp only [Int.not_lt]; exact hb
+  -- the instance the program is assembled on
+  have hsh : Shape (applyLong st) createInternal := by
+    refine ⟨?_, ?_, ?_⟩
+    · rw [applyLong_mem, ← hst, parseFlags_mem]
+    · rw [applyLong_bufLen, ← hst, parseFlags_bufLen]
+    · rw [applyLong_external, ← hst, parseFlags_external]
+  have hoff : (applyLong st).offset = 0 := by
+    rw [applyLong_offset, ← hst, parseFlags_offset]; rfl
+  have hmemlen : (applyLong st).mem.length = 6020 := by
+    rw [hsh.1]
+    show (List.replicate (AL.Gen.c_MEM_BUFFER + AL.Gen.c_BUFFER_TOLERANCE) 0).length = 6020
+    rw [List.length_replicate]
+    rfl
+  have hinv : BufInv (applyLong st) := by unfold BufInv; rw [hsh.2.1, hmemlen]; decide
+  have hext : (applyLong st).external = false := by rw [hsh.2.2]; rfl
+  -- the phase is the one library call
+  have hphase : assemblePhase st false (some text) =
+      (match asmAssembleStr (applyLong st) text with
+       | (a, .ok ()) => (a, true, none)
+       | (a, .error _) => (a, false, none)) := by
+    unfold assemblePhase asmAssembleFile
+    simp only [Bool.false_eq_true, if_false, hnb, decide_false]
+    rfl
+  rw [hphase] at hok ⊢
+  have hcall : (asmAssembleStr (applyLong st) text).2 = .ok () := by
+    rcases hr : asmAssembleStr (applyLong st) text with ⟨a', r'⟩
+    rw [hr] at hok
+    cases r' with
+    | ok u => rfl
+    | error e => simp at hok
+  have hlay := asm_layout assembleLine (applyLong st) text hinv (by rw [hoff]; exact Int.le_refl 0) (by rw [hoff]; exact Int.natCast_nonneg _)
+    (by intro h; rw [hm] at h; exact absurd h (by decide))
+    (by rw [hmemlen]; unfold growth; rw [hext]; simp only [Bool.false_eq_true, if_false]; omega) hcall
+  -- stdout is the listing
+  have hout : cliStdout flags false (some text) = (debugListing (applyLong st).opt text).1 := by
+    unfold cliStdout
+    rw [hst]
+    simp only [hu, Bool.false_eq_true, if_false, hd, Bool.not_true, hm]
+    have hne : ((Mode.assemble == Mode.fitting) = false) := by decide
+    simp only [hne, Bool.false_and, Bool.false_eq_true, if_false]
+    rw [hphase]
+    rcases hr : asmAssembleStr (applyLong st) text with ⟨a', r'⟩
+    cases r' <;> simp
+  rw [hout, listing_reads_back]
+  -- the codes of the listing are the codes of the layout, and the layout in plain mode is their concatenation
+  have hcodes : (listingGo (assembleLine (applyLong st).opt) (text.length + 1) text).1 = codesOf assembleLine (applyLong st).opt text := by
+    rw [listingGo_codes]; rfl
+  have hflat : ∀ (cs : List Bytes) (p : Nat), layoutAll .assemble (applyLong st).chunkSize p cs = cs.flatten := by
+    intro cs
+    induction cs with
+    | nil => intro p; rfl
+    | cons c cs ih => intro p; simp only [layoutAll, layoutOne, List.flatten_cons, ih]
+  rw [hcodes]
+  rcases hr : asmAssembleStr (applyLong st) text with ⟨a', r'⟩
+  have hr' : asmAssembleStrWith assembleLine (applyLong st) text = (a', r') := hr
+  rw [hr'] at hlay
+  rw [hm, hoff] at hlay
+  simp only [hflat, Int.toNat_zero, List.drop_zero, Int.zero_add] at hlay
+  obtain ⟨ho, hmem, _⟩ := hlay
+  cases r' with
+  | error e => rw [hr] at hcall; simp at hcall
+  | ok u =>
+    simp only
+    rw [ho, Int.toNat_natCast, hmem]
+
 /-- non-vacuity: `asmline -p -c 8 FILE` on a two-line program meets every hypothesis of `p_with_fitting_prints_the_code` -/
 example :
     let st := parseFlags { a := createInternal } [.p, .c 8]
     st.usage = false ∧ st.debug = true ∧ st.boundary ≤ 0 ∧ (applyLong st).mode = .fitting ∧
       (assemblePhase st false (some (str! "mov rax, 0x1122334455667788\nret"))).2.1 = true := by decide +kernel
+
+/-- non-vacuity: `asmline -p --nasm-mov-imm FILE` on a three-line program meets every hypothesis of `p_plain_file_prints_the_code` -/
+example :
+    let st := parseFlags { a := createInternal } [.p, .nasmMovImm]
+    st.usage = false ∧ st.debug = true ∧ st.boundary ≤ 0 ∧ (applyLong st).mode = .assemble ∧
+      (assemblePhase st false (some (str! "mov rax, 0x1\nadd rax, rcx ; c\nret"))).2.1 = true := by decide +kernel
 
 end AL.Properties.C20
